@@ -7,6 +7,8 @@ Directives (each on its own line, inside a template `.rs` file):
   //         [props=C01,C07] [occ=0] [self=no-mut]
   //@contract            (optional)   following lines up to next //@ are spliced between signature and body
   //@hints <generator> k=v ...   (optional, repeatable) proof text generated from the extracted body
+  //@sub OLD =====> NEW     (optional, repeatable) exact-text substitution inside the body; OLD must occur exactly
+                         once (used to annotate a closure with its `ensures`, or to name a std constant); recorded in evidence
   //@tailproof           (optional)   following lines are placed in a proof block before the result is returned
   //@end
 
@@ -93,7 +95,14 @@ def build_fn(src_root, d, contract, hint_specs, tailproof, vacuity):
             if a not in sig:
                 raise GenError(f"anchor lost: signature of {d['fn']} no longer contains `{a}`")
             sig = sig.replace(a, b)
-    parts = rsparse.split_top_level(f['body'])
+    body_text = f['body']
+    subs_done = []
+    for a_, b_ in d.get('_subs', []):
+        if body_text.count(a_) != 1:
+            raise GenError(f"anchor lost: `{a_}` occurs {body_text.count(a_)} times in {d['fn']} (expected exactly once)")
+        body_text = body_text.replace(a_, b_)
+        subs_done.append(f'{a_} =====> {b_}')
+    parts = rsparse.split_top_level(body_text)
     stmts = [t for t, sep in parts if sep]
     tail = parts[-1][0]
     tail_code = rsparse.strip_comments(tail).strip()
@@ -145,7 +154,7 @@ def build_fn(src_root, d, contract, hint_specs, tailproof, vacuity):
     meta = {
         'file': d['file'], 'impl': d.get('impl'), 'mod': d.get('mod'), 'fn': d['fn'],
         'lines': [f['line0'], f['line1']], 'sha256': f['sha256'],
-        'desugared': changed, 'props': d.get('props', '').split(',') if d.get('props') else [],
+        'desugared': changed + subs_done, 'props': d.get('props', '').split(',') if d.get('props') else [],
     }
     return ''.join(out), meta
 
@@ -234,6 +243,9 @@ def generate(template_path, src_root, out_path, vacuity=False):
                 elif s2.startswith('//@hints'):
                     toks = s2[len('//@hints'):].strip().split(None, 1)
                     hint_specs.append((toks[0], parse_kv(toks[1] if len(toks) > 1 else '')))
+                elif s2.startswith('//@sub '):
+                    a_, b_ = s2[len('//@sub '):].split(' =====> ')
+                    d.setdefault('_subs', []).append((a_.strip(), b_.strip()))
                 elif mode == 'c':
                     contract += lines[i] + '\n'
                 elif mode == 't':
